@@ -76,9 +76,23 @@ fn one_case(ctx: &Ctx, case: u64, l: &mut Local) {
     if r.chance(50) {
         cfg.profile = *r.pick(&[Profile::Wide, Profile::ObjectsInArrays, Profile::DeepObjects]);
     }
-    let s = pipeline::gen_scenario(ctx, &mut r, cfg.clone());
+    let mut s = pipeline::gen_scenario(ctx, &mut r, cfg.clone());
+    if case % 40 == 7 {
+        // boundary sizes: a credential with 40..160 small objects (2..4 decoys each, i.e. more
+        // than 128 / 256 decoy digests in one credential) and objects with exactly 8 / 16 members
+        let n = 40 + r.below(121);
+        let items: Vec<Value> = (0..n).map(|i| json!({ format!("k#{i};"): i })).collect();
+        let mut wide8 = serde_json::Map::new();
+        for i in 0..(8 * (1 + r.below(3))) {
+            wide8.insert(format!("w#9{i};"), json!(i));
+        }
+        s.u["many-objects#0;"] = Value::Array(items);
+        s.u["exactly-8n-members#00;"] = Value::Object(wide8);
+        s.strat = gen::gen_strategy(&mut r, &s.u, cfg.strat);
+        l.count("boundary.many-objects-credentials");
+    }
     let class = cfg.profile.name();
-    let reps = 4 + r.below(13);
+    let reps = if case % 40 == 7 { 2 } else { 4 + r.below(13) };
     let jwk = cfg.holder.map(|(a, i)| keys::holder_jwk_json_canonical(a, i));
     let base_input = || json!({"config": cfg.describe(), "claims": s.u, "strategy": s.strat.describe()});
     l.sample(case, base_input);
